@@ -16,22 +16,46 @@ def routeCompileCalls : List (String × String × String) := [
 def adapterTerminalLiterals : List (String × String) := [
   ("caddyconfig/httpcaddyfile/httptype.go:appendSubrouteToRouteList", "true")]
 
-/-- every write of a request-context value the routing reads (`context.WithValue(_, K, _)`, K among
-    routeGroupCtxKey / VarsCtxKey / ErrorCtxKey / OriginalRequestCtxKey) under modules/caddyhttp/**:
-    (file:function, key, value) -/
-def requestCtxWrites : List (String × String × String) := [
-  ("modules/caddyhttp/reverseproxy/healthchecks.go:doActiveHealthCheck", "VarsCtxKey", "?{…}"),
-  ("modules/caddyhttp/reverseproxy/healthchecks.go:doActiveHealthCheck", "OriginalRequestCtxKey", "*req"),
-  ("modules/caddyhttp/server.go:WithError", "ErrorCtxKey", "err"),
-  ("modules/caddyhttp/server.go:PrepareRequest", "VarsCtxKey", "?{…}"),
-  ("modules/caddyhttp/server.go:PrepareRequest", "routeGroupCtxKey", "make(?)"),
-  ("modules/caddyhttp/server.go:PrepareRequest", "OriginalRequestCtxKey", "originalRequest(r,&url2)")]
+/-- writes of the request-context values the routing reads (`context.WithValue(_, K, _)` identified by
+    its key argument): (entry point, what, number of such calls in the functions reachable from the
+    entry point over same-package static calls — PrepareRequest itself is not followed into from
+    Server.ServeHTTP, it has its own row), plus the totals under modules/caddyhttp/** -/
+def requestCtxWrites : List (String × String × Nat) := [
+  ("PrepareRequest", "WithValue VarsCtxKey", 1),
+  ("PrepareRequest", "WithValue OriginalRequestCtxKey", 1),
+  ("PrepareRequest", "WithValue ErrorCtxKey", 0),
+  ("wrapRoute", "WithValue VarsCtxKey", 0),
+  ("wrapRoute", "WithValue OriginalRequestCtxKey", 0),
+  ("wrapRoute", "WithValue ErrorCtxKey", 0),
+  ("HTTPErrorConfig.WithError", "WithValue VarsCtxKey", 0),
+  ("HTTPErrorConfig.WithError", "WithValue OriginalRequestCtxKey", 0),
+  ("HTTPErrorConfig.WithError", "WithValue ErrorCtxKey", 1),
+  ("Subroute.ServeHTTP", "WithValue VarsCtxKey", 0),
+  ("Subroute.ServeHTTP", "WithValue OriginalRequestCtxKey", 0),
+  ("Subroute.ServeHTTP", "WithValue ErrorCtxKey", 1),
+  ("Server.ServeHTTP", "WithValue VarsCtxKey", 0),
+  ("Server.ServeHTTP", "WithValue OriginalRequestCtxKey", 0),
+  ("Server.ServeHTTP", "WithValue ErrorCtxKey", 1),
+  ("total modules/caddyhttp/**", "WithValue VarsCtxKey", 2),
+  ("total modules/caddyhttp/**", "WithValue OriginalRequestCtxKey", 2),
+  ("total modules/caddyhttp/**", "WithValue ErrorCtxKey", 1)]
 
-/-- every mention of `routeGroupCtxKey` inside a function body: (file:function, the call it is an
-    argument of — `WithValue` creates the map, `Value` reads it — or "other") -/
-def routeGroupCtxUses : List (String × String) := [
-  ("modules/caddyhttp/routes.go:wrapRoute", "Value"),
-  ("modules/caddyhttp/server.go:PrepareRequest", "WithValue")]
+/-- the same for the route-group map: `WithValue` creates it, `Value` reads it, "other" = any other
+    mention of `routeGroupCtxKey` inside a function body -/
+def routeGroupCtxUses : List (String × String × Nat) := [
+  ("PrepareRequest", "WithValue routeGroupCtxKey", 1),
+  ("PrepareRequest", "Value routeGroupCtxKey", 0),
+  ("wrapRoute", "WithValue routeGroupCtxKey", 0),
+  ("wrapRoute", "Value routeGroupCtxKey", 1),
+  ("HTTPErrorConfig.WithError", "WithValue routeGroupCtxKey", 0),
+  ("HTTPErrorConfig.WithError", "Value routeGroupCtxKey", 0),
+  ("Subroute.ServeHTTP", "WithValue routeGroupCtxKey", 0),
+  ("Subroute.ServeHTTP", "Value routeGroupCtxKey", 0),
+  ("Server.ServeHTTP", "WithValue routeGroupCtxKey", 0),
+  ("Server.ServeHTTP", "Value routeGroupCtxKey", 0),
+  ("total modules/caddyhttp/**", "WithValue routeGroupCtxKey", 1),
+  ("total modules/caddyhttp/**", "Value routeGroupCtxKey", 1),
+  ("total modules/caddyhttp/**", "other routeGroupCtxKey", 0)]
 
 /-- the statements of the outer loop body of `MatcherSets.FromInterface` (one round per loaded matcher set) -/
 def fromInterfaceLoopBody : List String := [
